@@ -84,6 +84,20 @@ def runRestRT (h : String) : String := withRestOp h fun op =>
       let same := canonLeaves back == canonLeaves m
       out ++ " dec " ++ renderLeaves back ++ " same=" ++ (if same then "1" else "0")
 
+/-- The round trip of `rest_rt` changes the message, and only in the way `multi_var_lowercase_slash_not_preserved`
+    (C07) describes: the message comes back with every escaped slash spelled `%2f` in a value spelled `%2F`. -/
+def rtOnlySlashSpelling (h : String) : Bool :=
+  let r := withRestOp h fun op =>
+    let m := normalizeLeaves op.schema op.leaves
+    match restEncode op.schema reqMsgName op.rule m with
+    | .error _ => "no"
+    | .ok enc =>
+      match restDecode op.schema reqMsgName op.rule op.rule.httpMethod enc.path (groupQuery enc.query) (enc.body.getD []) with
+      | .error _ => "no"
+      | .ok back =>
+        if canonLeaves back != canonLeaves m && canonLeaves back == canonLeaves (m.map fun kv => (kv.1, canonSlash kv.2)) then "yes" else "no"
+  r == "yes"
+
 /-- An RPC client in front of a REST-only service: the backend is invoked once with the request the
     rule prescribes, or not at all when the message does not fit the rule. -/
 def runRestOut (h : String) : String := withRestOp h fun op =>
